@@ -1,5 +1,6 @@
 import Mouette.Model.Proto
 import Mouette.Model.KDTree
+import Mouette.Model.KDTreeFlat
 /-
 Protocol front-end for C11 (one request = one complete case).
 
@@ -9,7 +10,12 @@ Protocol front-end for C11 (one request = one complete case).
     a cell without a recorded pivot uses the exact median of its coordinates.
   * reply: `ok part=<0/1> box=<0/1> size=<0/1> | <k-NN squared distances, in answer order> ; <radius answer, sorted indices> | …`
     `part` = the concatenated leaves are a permutation of `0..n-1`; `box` = every index lies in the closed box of
-    every cell above it; `size` = every leaf holds at most `leafSize` indices.  The shape of the tree is NOT part of the reply.
+    every cell above it; `size` = every leaf holds at most `leafSize` indices.
+  * then ` || <shape> || flat=<0/1>`: `<shape>` is the FLAT node list of `buildBFSRoot` (the code's `tree.nodes`) in id order,
+    `N <axis> <split> <left> <right>` / `L <sorted indices>` separated by `,` (informational: an equivalent split rule shows
+    up here only); `flat` = the flat list reads back (`toTree`) as the recursive tree AND the stack-based `knnFlat` and the
+    FIFO `radiusFlat` give the answers of the recursive traversals on every query of the request (an executable instance of
+    the refinement theorems of `Props/C11F.lean`).
 -/
 namespace Mouette.DriveC11
 open Mouette.Proto Mouette.KD Mouette.AABB
@@ -50,7 +56,21 @@ def request : P String := do
       let nn := knn Pf t qu.q qu.k
       let rad := (radius Pf qu.q (qu.r * qu.r) t).mergeSort (· ≤ ·)
       s!"{fmtRats (nn.map (·.1))} ; {fmtNats rad}")
-    pure (" | ".intercalate (head :: answers))
+    let flat := buildBFSRoot Pf n dim leaf piv
+    let shape := match flat with
+      | none => "nofuel"
+      | some out => ",".intercalate (out.map (fun nd => match nd with
+          | .leaf _ _ _ idx _ => s!"L {fmtNats (idx.mergeSort (· ≤ ·))}"
+          | .node _ ax _ sv l r _ => s!"N {ax} {fmtRat sv} {l} {r}"))
+    let flatOk := match flat with
+      | none => false
+      | some out =>
+        (toTree out (n + 1) 0 == some t) &&
+        qs.all (fun qu =>
+          (knnFlat Pf qu.q qu.k out (out.length + 1) == some (knn Pf t qu.q qu.k)) &&
+          ((radiusFlat Pf qu.q (qu.r * qu.r) out (out.length + 1) [0] []).map (·.mergeSort (· ≤ ·))
+            == some ((radius Pf qu.q (qu.r * qu.r) t).mergeSort (· ≤ ·))))
+    pure (" | ".intercalate (head :: answers) ++ " || " ++ shape ++ " || flat=" ++ fmtBool flatOk)
 
 def handle (ts : List String) : Option String :=
   match ts with
